@@ -82,7 +82,10 @@ class C16(Prop):
                 "stack_axis_attrs", "concatenate_attrs", "concatenate_axis_attrs", "reduceAxis_attrs", "reduceAxis_axis_attrs", "argAxis_attrs",
                 "cumAxis_attrs", "diffAxis_attrs", "diffAxis_axis_attrs", "compressAxis_attrs", "takeAxis_attrs", "takeAxis_axis_attrs",
                 "dropna_attrs", "fillna_attrs", "setna_attrs", "interpAxis_attrs", "interpAxis_axis_attrs", "interpAxis_axis_attrs_counterexample",
-                "takeAxisPosDs_attrs", "takeAxisPosDs_axis_attrs", "sortAxisDs_axis_attrs", "reindexAxisDs_axis_attrs", "takeDs_attrs"]
+                "takeAxisPosDs_attrs", "takeAxisPosDs_axis_attrs", "sortAxisDs_axis_attrs", "reindexAxisDs_axis_attrs", "takeDs_attrs",
+                "unaryOp_attrs", "unaryOp_axis_attrs", "unaryOp_attrs_counterexample", "reduceX_attrs", "reduceX_axis_attrs",
+                "sortAxisKey_attrs", "sortAxisKey_axis_attrs", "takeAxisInts_attrs", "takeAxisInts_axis_attrs",
+                "compressNd_attrs", "compressNd_axis_attrs", "unaryOpDs_attrs", "rbinaryOpDs_attrs", "takeAxisIntsDs_attrs"]
     rule = ("routing: the complete table class {DimArray, Dataset, Axis} x name class {public, underscore, read-only member, "
             "settable member, method, dimension name / excluded name} x {stored in attrs, absent} x {get, set, del} is "
             "tabulated from the implementation on every run (126 rows) and proved by `decide`; propagation: every operation "
@@ -98,7 +101,15 @@ class C16(Prop):
             "metadata kept; arithmetic, stack_ds, concatenate_ds: dropped; axis metadata under slicing; Dataset-level metadata "
             "recorded only - the statement gives no rule for it). Non-trivial = every case; "
             "distinct = canonical JSON")
-    assumptions = ["attribute values are opaque (compared by value)"]
+    assumptions = ["attribute values are opaque (compared by value)",
+                   "operations the sweep exercises that have NO Lean mirror at all (their propagation is decided by the direct sweep only): "
+                   "broadcast (pointwise) indexing take(..., broadcast=True) [fn take_broadcast], the attrs property setter / deleter "
+                   "[op attrs_prop], Axis objects sliced directly with ndarray / boolean keys [ax_ndarray, ax_bool: only Axis.__getitem__ on "
+                   "positions is mirrored, as axisSelect]",
+                   "mirror functions that return an array / Dataset and still have NO kept / dropped theorem pair (sweep only): stackDsA, "
+                   "concatenateDsA, reindexAxisDsM, reduceAllDs, readFile, readMulti, DatasetCtor.construct (a state machine over axis "
+                   "identities: it carries no metadata field), and the older binaryOpDs, stackDs, concatenateDs, reduceDs, reindexLikeDs, "
+                   "copyDs, interpAxisDs, interpLike, interpLikeDs"]
 
     def mirrors(self):
         from dimarray.core import bases, dimarraycls
